@@ -1,4 +1,4 @@
-package cases
+package smoke
 
 import (
 	"fmt"
